@@ -59,7 +59,7 @@ fn intern(s: &str) -> &'static str {
     l
 }
 
-const ELEMS: [&str; 9] = ["org", "a", "b", "ab", "a-b", "A", "b2", "x1", "test"];
+const ELEMS: [&str; 12] = ["org", "a", "b", "ab", "a-b", "A", "b2", "x1", "test", "2fa", "3com", "0"];
 
 #[derive(Clone, Debug)]
 pub struct Case {
@@ -116,7 +116,8 @@ impl Case {
 }
 
 fn name_strategy() -> impl Strategy<Value = String> {
-    prop::collection::vec(0..ELEMS.len(), 2..=4).prop_map(|ix| ix.iter().map(|i| ELEMS[*i]).collect::<Vec<_>>().join("."))
+    // the first element starts with a letter; later ones may start with a digit (org.example.2fa)
+    prop::collection::vec(0..ELEMS.len(), 2..=4).prop_map(|ix| ix.iter().enumerate().map(|(k, i)| if k == 0 { ELEMS[*i % 9] } else { ELEMS[*i] }).collect::<Vec<_>>().join("."))
 }
 
 const METHODS: [&str; 7] = ["Foo", "Echo", "GetInfo", "GetInterfaceDescription", "foo", "X1", "NoSuch"];
@@ -264,11 +265,36 @@ pub fn run_case(c: &Case) -> Result<(), Fail> {
     );
     let req = c.request();
     let bytes = encode(&req, Style::Compact);
-    let run = run_chunks(&service, &[&bytes]);
+    // for one case in five another call travels in front of it in the same buffer: a method name without
+    // a dot (answered with InterfaceNotFound; the call behind it is routed as if it had come alone)
+    let prefixed = hash64(&c.method) % 5 == 0;
+    let buffer: Vec<u8> = if prefixed { [encode(&json!({"method": "nodot"}), Style::Compact), bytes.clone()].concat() } else { bytes.clone() };
+    let run = run_chunks(&service, &[&buffer]);
     if let Some(p) = &run.panicked {
         return Err(Fail::new("route/panic", format!("handle() panicked: {}", p)));
     }
-    let replies = split_replies("route", &run.out)?;
+    let mut replies = split_replies("route", &run.out)?;
+    if prefixed {
+        match replies.first() {
+            Some(r) if r["error"] == E_IFACE_NOT_FOUND && r["parameters"]["interface"] == "nodot" => {
+                replies.remove(0);
+            }
+            other => {
+                return Err(Fail::new("route/nodot-prefix", format!("the call `nodot` in front of the case was answered with {:?}", other)));
+            }
+        }
+        if run.err.is_some() && replies.is_empty() && !c.method.is_empty() {
+            // the call behind the dot-less one was not routed at all
+            if let Some(e) = &run.err {
+                if e.contains("SerdeJsonDe") {
+                    return Err(Fail::new(
+                        "route/call-behind-nodot-not-routed",
+                        format!("the call `{}` travelling behind a dot-less call in the same buffer was not routed: handle() returned {}", c.method, e),
+                    ));
+                }
+            }
+        }
+    }
     let seen = log.lock().unwrap().clone();
     let oneway = c.flags[1] == 1;
     let more = c.flags[0] == 1;
